@@ -19,6 +19,8 @@ var verifC06Tables = [][]verifRouteDef{
 	{{`/a/{v:\d+}`, []string{"PUT"}}, {"/{v}/{w}", []string{"PUT"}}, {"/a/{v}", []string{"DELETE"}}},
 	{{`/a/{v:\d+}`, []string{"POST", "PUT"}}, {"/{v}/b", []string{"POST"}}, {"/{all}", []string{"HEAD"}}},
 	{},
+	// a literal route ending in "/*" below a prefix is an ordinary fixed route, not a fallback for that subtree
+	{{"/a/*", []string{"GET", "POST"}}, {"/*", []string{"GET"}}, {"/a/{v}", []string{"DELETE"}}},
 }
 
 func verifC06Options(opt int) []func(*Router) {
